@@ -32,6 +32,16 @@ MISSED_FIRST = {  # the property's own check missed it before it was strengthene
     "C15-c": "C15: repetition after analyses with other solver settings (history independence)",
     "C05-b": "C05: corner droplets on grids with unequal cell counts where the main piece is the upper cluster of both merges",
     "C17-b": "C17: ring+blob fields (overlap filter decides the count), shifts that put the common centre on a periodic boundary; known finding narrowed to winding components",
+    "C02-d": "C02: overlap-filter traps in the corpus (a small cluster inside a larger one's bounding sphere, equal-sized touching clusters)",
+    "C02-e": "C02: cylindrical 'head + tail' masks on taller grids (nr 6..9, nz 12..16) so that off-axis tails decide the candidate",
+    "C05-c": "C05: finely resolved polar/spherical grids with droplets of 3..3.5 cells radius and fitted levels (`small_radial`)",
+    "C05-d": "C05: droplets centred on the periodic z boundary of cylindrical grids",
+    "C08-d": "C08: writing over an existing file of another layout; read-back compared entry-wise",
+    "C08-e": "C08: mixed time stamps (ints, floats, repeated) in one collection",
+    "C14-d": "C14: restarted / decreasing time axes in the handled-times comparison",
+    "C14-e": "C14: more exception kinds in the interrupt stream (KeyboardInterrupt, StopIteration inside the tracker)",
+    "C15-d": "C15: float32 fields with automatic intensity levels",
+    "C15-e": "C15: repeated time stamps in the parallel stream",
 }
 rows = []
 for d in sorted(ROOT.iterdir()):
